@@ -14,9 +14,6 @@ def colRows (b : Batch α) (c : Nat) : List α := (b.getD c default).rows
 /-- concatenation of column `c` over a list of batches -/
 def colConcat (bs : List (Batch α)) (c : Nat) : List α := (bs.map (colRows · c)).flatten
 
-/-- `_batch_size(batch[0])`: the number of rows of a batch, read off its first column -/
-def nrows (b : Batch α) : Nat := (b.headD default).rows.length
-
 def totalRows (bs : List (Batch α)) : Nat := (bs.map nrows).sum
 
 /-- a batch of `nc` columns of supported kinds, each with `r` rows -/
@@ -34,5 +31,17 @@ def padding (t : Nat) (pad : Option α) (n : Nat) : List α :=
   match pad with
   | none => []
   | some p => List.replicate ((t - n % t) % t) p
+
+/-! Sample data for the non-vacuity examples of `Properties/C19.lean`. -/
+
+/-- two columns (list, array); 5 rows then 1 row -/
+def sampleStream : List (Batch Nat) :=
+  [[⟨.list, [0, 1, 2, 3, 4]⟩, ⟨.array, [10, 11, 12, 13, 14]⟩], [⟨.list, [5]⟩, ⟨.array, [15]⟩]]
+
+/-- a batch with columns of unequal length -/
+def sampleRagged : Batch Nat := [⟨.list, [6, 7]⟩, ⟨.array, [16]⟩]
+
+/-- row function `[x, y] ↦ [x + y]` -/
+def sampleSum : List Nat → List Nat := fun r => [r.sum]
 
 end MlModel.Rebatch
